@@ -61,7 +61,42 @@ def check_program(name, p, bounds, timeout_ms=20000):
             res["inconclusive"] = res.get("inconclusive", 0) + 1
     res["queries"] = ctx.queries
     res["solver_s"] = round(ctx.solver_s, 3)
+    unbounded_variant(p_ir, res)
     return res
+
+
+def unbounded_variant(p_ir, res, timeout_ms=8000):
+    """The same obligations over UNBOUNDED sizes and index arguments: loops are not unrolled but summarised by one
+    arbitrary iteration (loopsym Bounds.unbounded).  unsat = the obligation holds for every size; a model is
+    replayed concretely and reported only if it reproduces; anything else is counted inconclusive."""
+    try:
+        ub = Bounds(unbounded=True, stmt_budget=4000)
+        cu = ProcCtx(p_ir, ub, timeout_ms=timeout_ms, tag="u")
+    except (Unsupported, TooBig, L.IllFormed) as ex:
+        res["unbounded"] = "skipped"
+        return
+    obls = [o for o in cu.r1.obls if o.kind in C03_KINDS]
+    res["unbounded_obligations"] = len(obls)
+    if not obls:
+        res["unbounded"] = "holds"
+        return
+    viol, inconc, n = cu.check_obligations(p_ir, cu.r1, kinds=C03_KINDS, assume_safe_p=False)
+    res["queries"] = res.get("queries", 0) + cu.queries
+    if not viol and not inconc:
+        res["unbounded"] = "holds"
+        return
+    res["unbounded"] = "inconclusive"
+    have = {(v["kind"]) for v in res["violations"]}
+    for o, cex in viol:
+        try:
+            conc_run(p_ir, cex)
+        except ConcViolation as cv:
+            res["unbounded"] = "violated"
+            if cv.kind not in have:
+                res["violations"].append({"kind": cv.kind, "obl_kind": o.kind, "where": o.where, "replay": str(cv) + " (found by the unbounded variant)", "cex": cex_to_json(cex)})
+                have.add(cv.kind)
+        except (Unsupported, TooBig, ZeroDivisionError, RecursionError, MemoryError):
+            pass
 
 
 def _work(job):
@@ -170,6 +205,8 @@ def run(tier):
             stats[r["status"]] += 1
             stats["obligations"] += r.get("obligations", 0)
             stats["inconclusive"] += r.get("inconclusive", 0)
+            if r.get("unbounded"):
+                stats["unbounded_" + r["unbounded"]] += 1
             states += r.get("stmts", 0)
             queries += r.get("queries", 0)
             solver_s += r.get("solver_s", 0.0)
@@ -197,6 +234,7 @@ def run(tier):
         "errors": errors[:10],
         "bounds": bounds,
         "obligation_kinds": list(C03_KINDS),
+        "unbounded_variant": {k[len("unbounded_"):]: v for k, v in stats.items() if k.startswith("unbounded_")},
         "tight_families": fam_sizes,
         "tight_accepted": {k: sum(1 for o in outs for r in o["results"] if r.get("origin") == "tight:" + k) for k in fam_sizes},
         "source_hashes": repo_file_hashes(["src/exo/frontend/boundscheck.py", "src/exo/frontend/typecheck.py", "src/exo/rewrite/new_eff.py", "src/exo/API.py"]),
@@ -207,6 +245,7 @@ def run(tier):
         "rejected sources only contribute counts (over-rejection is not a C03 violation)",
         "allocation extents >= 1 are not part of C03's statement and are not judged here",
         "every unwinding obligation holds by construction (unroll count = solver-computed maximum trip count; programs exceeding the cap are skipped and counted)",
+        "unbounded variant (reported separately in coverage.unbounded_variant): sizes and index arguments unbounded, each loop summarised by one arbitrary iteration with every configuration field the body may write havoc'd; 'holds' = every obligation is valid for ALL sizes; 'inconclusive' = the solver answered sat/unknown but no concrete run reproduced it (over-approximation), never counted as held",
     ]
     write_evidence("C03", tier, vseed, "model_checking", coverage, assumptions, time.time() - t0, len(rep.violations))
     print(f"C03 {tier}: {stats['accepted_programs']} accepted programs ({stats['rejected_by_frontend']} rejected), {stats['obligations']} obligations, {queries} queries, inconclusive={stats['inconclusive']}, skipped={stats['skipped']}, {time.time()-t0:.0f}s")
